@@ -62,11 +62,14 @@ func (m *machine) transport(r *simrt.Request) (int, error) {
 		r.Note = "200"
 		return 200, nil
 	case 1:
-		r.Note = "400"
-		return 400, nil
+		// any client-error code is a client error, any server-error code a server error
+		code := []int{400, 401, 403, 404, 408, 409, 413, 422, 429, 451, 499}[m.t.Biased(11, 1, 2)]
+		r.Note = fmt.Sprint(code)
+		return code, nil
 	case 2:
-		r.Note = "500"
-		return 500, nil
+		code := []int{500, 501, 502, 503, 504, 507, 511, 599}[m.t.Biased(8, 1, 2)]
+		r.Note = fmt.Sprint(code)
+		return code, nil
 	case 3:
 		r.Note = "no answer"
 		return 0, syscall.ECONNREFUSED
@@ -570,11 +573,29 @@ func (m *machine) userChangesMode(viaCommands bool) {
 // userCleans populates the directories with foreign files and runs gotelemetry clean.
 func (m *machine) userCleans() {
 	t := m.t
-	os.MkdirAll(m.upl, 0777)
+	// One of the two data directories may be absent: nothing was uploaded yet,
+	// or the user removed local/ by hand.
+	dirs := []string{m.loc, m.upl}
+	switch t.Biased(3, 1, 2) {
+	case 0:
+		os.MkdirAll(m.upl, 0777)
+	case 1:
+		if _, err := os.Stat(m.upl); err != nil {
+			dirs = []string{m.loc}
+			m.s.Probe("clean-without-upload-dir")
+		}
+	case 2:
+		os.MkdirAll(m.upl, 0777)
+		os.WriteFile(filepath.Join(m.upl, "2019-01-07.json"), []byte("{}"), 0666)
+		os.RemoveAll(m.loc)
+		defer os.MkdirAll(m.loc, 0777)
+		dirs = []string{m.upl}
+		m.s.Probe("clean-without-local-dir")
+	}
 	foreign := []string{"notes.txt", "x.v1.count.bak", "y.jsonx", "z.v2.count", "json", ".json.swp", "v1.count", "report.JSON", "a.count", "upload.token",
 		"2024-01-08.json.lock", "stale.lock", "2024-01-08.json.tmp7", "local.2024-01-08.json.tmp3", "weekends.tmp1", "x.v1.count.tmp"}
 	exact := []string{"foreign.v1.count", "foreign.json", "local.foreign.json", ".v1.count", ".json"}
-	for _, dir := range []string{m.loc, m.upl} {
+	for _, dir := range dirs {
 		for _, n := range foreign {
 			if t.Bool(1, 3) {
 				os.WriteFile(filepath.Join(dir, n), []byte("keep "+n), 0666)
